@@ -13,7 +13,8 @@ reported as KNOWN-FINDING). Nothing here is consulted at check time except the r
 """
 import json, re, sys, os
 
-SLOW = 6.0
+SLOW = float(os.environ.get('PROPS_SLOW', '15'))
+DEPTH = int(os.environ.get('PROPS_DEPTH', '1'))
 VERIF = os.path.dirname(os.path.abspath(__file__))
 
 R = r'^roaring\.'
@@ -57,11 +58,11 @@ PROPS = {
  'C04': dict(pats=ITER, note='Chunk-level iteration protocols of the three container kinds (forward, reverse, many, unset) as cursors over the container view: next returns the value at the cursor and moves to the least greater member, peekNext does not move, advanceIfNeeded never moves backwards.'),
  'C05': dict(pats=SIZES + WRITERS + READERS, note='Byte accounting and error propagation of the portable format: size formulas per kind and for the table, the writers against a model writer (bytes appended, count returned, errors reported), the readers on arbitrary byte sources.'),
  'C06': dict(pats=WRITERS + SIZES + [R + r'roaringArray\.readFrom$', R + r'byteSliceAs\w+$'], note='Layout clauses of the writers (cookie, counts, payload bytes little-endian) and the reader.'),
- 'C07': dict(pats=BINOPS + CONV + RA_OWN + MUT + [r'^roaring64\.roaringArray64\.(getWritableContainerAtIndex|appendWithoutCopy|appendCopy\w*|cloneCopyOnWriteContainers|clone|markAllAsNeedingCopyOnWrite)$'] + BM(r'Clone'),
+ 'C07': dict(pats=BINOPS + CONV + RA_OWN + MUT + [r'^roaring64\.roaringArray64\.(getWritableContainerAtIndex|appendWithoutCopy|appendCopy\w*|cloneCopyOnWriteContainers|clone|markAllAsNeedingCopyOnWrite)$'] + BM(r'Clone|CloneCopyOnWriteContainers|AndNot|And|Or|Xor|Add|CheckedAdd|Remove|CheckedRemove|AddRange|RemoveRange|Flip|FlipInt|AddMany|Clear|RunOptimize|lazyOR|AndAny') + [R + r'(And|Or|Xor|AndNot|Flip|FastOr|FastAnd|AddOffset\w*)$'],
              kinds=['frame', 'post', 'inv', 'call', 'assert'], note='Non-interference: frame obligations (nothing outside the declared footprint is written: arguments of binary operations are never modified), freshness/ownership postconditions of every container operation (the result shares no storage with an operand unless it IS the receiver), and the copy-on-write discipline of the chunk table (a shared container is flagged in both tables or cloned).'),
  'C08': dict(pats=[R + r'Bitmap\.(FromBuffer|FromUnsafeBytes|FrozenView|MustFrozenView|CloneCopyOnWriteContainers)$', R + r'roaringArray\.(readFrom|frozenView|getWritableContainerAtIndex|cloneCopyOnWriteContainers|getUnionedWritableContainer)$', R + r'byteSliceAs\w+$', r'^internal\.', R + r'Bitmap\.(AndNot|And|Or|Xor|Add|Remove|AddRange|RemoveRange|Flip)$'],
              kinds=['frame', 'post', 'inv', 'call'], note='Buffer-backed bitmaps: the decoders flag every container that aliases the caller bytes as copy-on-write; writable access clones flagged containers; in-place container operations write only into their own representation (frame obligations).'),
- 'C09': dict(pats=VALID + CONV + MUT + BINOPS + RA_MUT + [R + r'lemma_(validNonempty|bitmapSomeBit)$'], kinds=['post', 'inv', 'call', 'assert'],
+ 'C09': dict(pats=VALID + CONV + MUT + BINOPS + RA_MUT + [R + r'lemma_(validNonempty|bitmapSomeBit)$'] + BM(r'Add|CheckedAdd|Remove|CheckedRemove|AddRange|RemoveRange|Flip|FlipInt|AddMany|Clear|RunOptimize|AndNot|And|Or|Xor|Clone') + [R + r'(And|Or|Xor|AndNot|Flip|AddOffset\w*|FromDense)$'], kinds=['post', 'inv', 'call', 'assert'],
              note='Validators characterise well-formedness (validate returns nil exactly on well-formed containers/tables), and every constructive container operation ensures well-formedness of its result (cwf/awf/bwf/rwf clauses).'),
  'C10': dict(pats=READERS + VALID + FROZEN + [r'^roaring64\.Bitmap\.(ReadFrom|FromUnsafeBytes|UnmarshalBinary|FromBase64)$'],
              note='Decoder safety with NO precondition on the bytes: every index, slice, nil, division and allocation-size obligation of the decoding paths, plus validators.'),
@@ -107,6 +108,8 @@ def main():
         for fr in json.load(open(f)):
             funcs[fr['key']] = fr            # later files win
     known = json.load(open(os.path.join(VERIF, 'known_findings.json')))
+    gp = os.path.join(VERIF, 'spec', 'callgraph.json')
+    graph = json.load(open(gp)) if os.path.exists(gp) else {}
     out = {}
     report = []
     lemmas = []
@@ -119,12 +122,28 @@ def main():
         kf = set(k['obligation'] for k in known if k['property'] == pid and not k.get('fixed'))
         fl = []
         nob = nsk = 0
-        for key, fr in sorted(funcs.items()):
-            if '#refines' in key:
-                continue
-            if not any(p.search(key) for p in pats):
+        # the functions named by the patterns, closed under callees (static call graph; interface calls: every
+        # implementation): verification is modular, so a change inside a callee shows only in the callee's own obligations
+        matched = set()
+        for key in funcs:
+            if '#refines' in key or not any(p.search(key) for p in pats):
                 continue
             if pid == 'C19' and C19_EXCL.search(key):
+                continue
+            matched.add(key)
+        frontier = set(matched)
+        for _ in range(DEPTH):
+            nxt = set()
+            for k in frontier:
+                for c in (graph.get(k) or []):
+                    if c in funcs and c not in matched:
+                        nxt.add(c)
+            if not nxt:
+                break
+            matched |= nxt
+            frontier = nxt
+        for key, fr in sorted(funcs.items()):
+            if key not in matched:
                 continue
             if fr.get('trusted'):
                 fl.append({'f': key})
